@@ -53,6 +53,7 @@ def configs(tier: str) -> list[tuple[Any, ...]]:
         for s in SEEDS_NOISE:
             out.append((True, s, True, 3, 1))
         out.append((False, "init", True, 4, 2, HOSTNAME))
+        out.append((False, "hello_sent", True, 3, 2, ("10.0.0.1",), True))
     else:
         for s in SEEDS_PLAIN:
             out.append((False, s, True, 4, 2))
@@ -61,6 +62,8 @@ def configs(tier: str) -> list[tuple[Any, ...]]:
             out.append((True, s, True, 4, 2))
         out.append((False, "init", True, 5, 2, HOSTNAME))
         out.append((True, "init", True, 4, 2, HOSTNAME))
+        out.append((False, "hello_sent", True, 4, 2, ("10.0.0.1",), True))
+        out.append((True, "hswait", True, 4, 2, ("10.0.0.1",), True))
     return out
 
 
@@ -74,14 +77,22 @@ def run(tier: str, seed: int) -> Result:
     for i, cfg in enumerate(cfgs):
         noise, sd, login, depth, bound = cfg[:5]
         addrs = cfg[5] if len(cfg) > 5 else ("10.0.0.1",)
+        dbg = bool(cfg[6]) if len(cfg) > 6 else False
         left = max(5.0, (t_end - time.monotonic()) / (len(cfgs) - i))
-        st = explore_parallel(factory, (noise, sd, login, addrs), depth=depth, bound=bound, budget_s=left, split_depth=1)
+        from .. import world as _world
+
+        _world.DEFAULT_DEBUG[0] = dbg
+        try:
+            st = explore_parallel(factory, (noise, sd, login, addrs), depth=depth, bound=bound, budget_s=left, split_depth=1)
+        finally:
+            _world.DEFAULT_DEBUG[0] = False
         per_cfg.append(
             {
                 "noise": noise,
                 "seed_state": sd,
                 "login": login,
                 "addresses": list(addrs),
+                "debug_logging": dbg,
                 "depth": depth,
                 "deviation_bound": bound,
                 "executions": st.executions,
@@ -98,7 +109,7 @@ def run(tier: str, seed: int) -> Result:
             res.add(
                 key,
                 clause,
-                {"harness": "lifecycle", "noise": noise, "seed_state": sd, "login": login, "addresses": list(addrs), "choices": v["choices"],
+                {"harness": "lifecycle", "noise": noise, "seed_state": sd, "login": login, "addresses": list(addrs), "debug": dbg, "choices": v["choices"],
                  "violated": v["violated"], "observations": v["observations"]},
             )
         total.merge(st)
@@ -133,6 +144,9 @@ def run(tier: str, seed: int) -> Result:
 
 def replay(rp: dict[str, Any]) -> bool:
     d = rp["detail"]
+    from .. import world as _world
+
+    _world.DEFAULT_DEBUG[0] = bool(d.get("debug"))
     h = factory(d["noise"], d["seed_state"], d["login"], tuple(d.get("addresses") or ("10.0.0.1",)))
     w = h.fresh()
     try:
